@@ -324,9 +324,10 @@ func runC13(seed int64, tier string, sc *Script) map[string]any {
 			b := pick()
 			// occasionally arm a one-field corruption for read-type calls
 			corrupt := ""
+			armDen := 4
 			arm := func(isMan bool, avoid int64) {
 				numericLen := avoid != -2 // a numeric length on a by-reference GET would need a padded body
-				if rng.Intn(4) != 0 {
+				if rng.Intn(armDen) != 0 {
 					return
 				}
 				other := pick()
@@ -401,6 +402,25 @@ func runC13(seed int64, tier string, sc *Script) map[string]any {
 				}
 				sc.Count("op:push")
 			case r < 40: // fetch
+				if rng.Intn(2) == 0 {
+					// content the registry holds, read back through a response with one field off
+					reg.mu.Lock()
+					rr := reg.repo(repoName)
+					var held []*c13Body
+					for _, x := range c.bodies {
+						if _, ok := rr.blobs[x.dg]; ok {
+							held = append(held, x)
+						} else if _, ok := rr.manifests[x.dg]; ok {
+							held = append(held, x)
+						}
+					}
+					reg.mu.Unlock()
+					if len(held) > 0 {
+						b = held[rng.Intn(len(held))]
+						armDen = 2
+						sc.Count("fetch:held-content")
+					}
+				}
 				mt, size := mkDesc(b)
 				arm(c.isManifest(mt), size)
 				mk := c.mark()
